@@ -206,56 +206,69 @@ def run_C04(tier, seed):
         insts.append(random_instance(rng, 4, 4, 3, durations=(1, 2, 3, 5, 8), flexible=False))
     res.bound["instances"] += "; plus %d non-flexible instances of the same size with positive durations" % n_classic
 
+    POKES = ["uncompleted_operations", "ongoing_operations", "completed_operations", "unscheduled_operations",
+             "scheduled_operations", "available_machines", "available_jobs", "current_time"]
+    other_rules = [dispatching_rule_factory(r) for r in rules if r != "random"]
+    res.bound["configurations"] += ("; every second configuration with other queries / other rules asked first in half of "
+                                   "the states; score_based_rule over 3 built-in scoring functions")
     for jobs in insts:
         positive = all(dur > 0 for job in jobs for _, dur in job)
         for rule in rules:
             for chooser in choosers:
-                for fc in (filter_cfgs if positive else [None]):
-                    res.count("solver-terminates-complete-feasible")
-                    res.case((str(jobs), rule, chooser, str(fc)))
-                    inst = build_instance(jobs)
-                    solver = DispatchingRuleSolver(rule, chooser, fc)
-                    d = Dispatcher(inst, ready_operations_filter=solver.ready_operations_filter)
-                    model = Model(jobs)
-                    rule_fn = solver.dispatching_rule
-                    steps = 0
-                    ok = True
-                    try:
-                        while not d.schedule.is_complete():
-                            steps += 1
-                            if steps > model.N + 2:
-                                raise Timeout()
-                            avail = list(d.available_operations())
-                            sel = rule_fn(d)
-                            res.count("selected-is-available-and-best")
-                            if not any(sel is a for a in avail):
-                                res.breach("selected-is-available", f"{rule} selected an unavailable operation",
-                                           jobs=jobs, history=model.history, rule=rule, filter=fc)
-                                ok = False
-                                break
-                            cs = crit(rule, jobs, model, d, sel)
-                            if cs is not None:
-                                alts = list(zip(*[crit(rule, jobs, model, d, a) for a in avail]))
-                                if not any(c == max(col) for c, col in zip(cs, alts)):
-                                    res.breach(f"selected-is-best:{rule}", f"selected job {sel.job_id} with criterion "
-                                               f"{cs}, best {[max(c) for c in alts]}", jobs=jobs,
-                                               history=model.history, rule=rule, filter=fc)
-                            m = solver.machine_chooser(d, sel)
-                            d.dispatch(sel, m)
-                            model.apply(sel.job_id, m)
-                    except Timeout:
-                        res.breach("solver-terminates", f"{rule}/{chooser}/{fc}: no progress", jobs=jobs,
-                                   history=model.history)
-                        ok = False
-                    except Exception as e:  # noqa: BLE001
-                        res.breach("solver-terminates", f"{rule}/{chooser}/{fc}: {type(e).__name__}: {str(e)[:100]}",
-                                   jobs=jobs, history=model.history)
-                        ok = False
-                    if ok:
-                        errs = feasibility_errors(inst, d)
-                        if errs or model.n != model.N:
-                            res.breach("solver-terminates-complete-feasible", (errs or ["incomplete"])[0], jobs=jobs,
-                                       rule=rule, filter=fc)
+              for poke in ((False, True) if chooser == "first" else (False,)):
+                  for fc in (filter_cfgs if positive else [None]):
+                      res.count("solver-terminates-complete-feasible")
+                      res.case((str(jobs), rule, chooser, str(fc)))
+                      inst = build_instance(jobs)
+                      solver = DispatchingRuleSolver(rule, chooser, fc)
+                      d = Dispatcher(inst, ready_operations_filter=solver.ready_operations_filter)
+                      model = Model(jobs)
+                      rule_fn = solver.dispatching_rule
+                      steps = 0
+                      ok = True
+                      try:
+                          while not d.schedule.is_complete():
+                              steps += 1
+                              if steps > model.N + 2:
+                                  raise Timeout()
+                              avail = list(d.available_operations())
+                              if poke and rng.random() < 0.5:
+                                  # the state a rule is asked in includes what was asked before in that state: other
+                                  # queries and other rules first (the rule's answer must not depend on them)
+                                  for q in rng.sample(POKES, rng.randint(1, 3)):
+                                      getattr(d, q)()
+                                  for r2 in rng.sample(other_rules, rng.randint(0, 2)):
+                                      r2(d)
+                              sel = rule_fn(d)
+                              res.count("selected-is-available-and-best")
+                              if not any(sel is a for a in avail):
+                                  res.breach("selected-is-available", f"{rule} selected an unavailable operation",
+                                             jobs=jobs, history=model.history, rule=rule, filter=fc)
+                                  ok = False
+                                  break
+                              cs = crit(rule, jobs, model, d, sel)
+                              if cs is not None:
+                                  alts = list(zip(*[crit(rule, jobs, model, d, a) for a in avail]))
+                                  if not any(c == max(col) for c, col in zip(cs, alts)):
+                                      res.breach(f"selected-is-best:{rule}", f"selected job {sel.job_id} with criterion "
+                                                 f"{cs}, best {[max(c) for c in alts]}", jobs=jobs,
+                                                 history=model.history, rule=rule, filter=fc)
+                              m = solver.machine_chooser(d, sel)
+                              d.dispatch(sel, m)
+                              model.apply(sel.job_id, m)
+                      except Timeout:
+                          res.breach("solver-terminates", f"{rule}/{chooser}/{fc}: no progress", jobs=jobs,
+                                     history=model.history)
+                          ok = False
+                      except Exception as e:  # noqa: BLE001
+                          res.breach("solver-terminates", f"{rule}/{chooser}/{fc}: {type(e).__name__}: {str(e)[:100]}",
+                                     jobs=jobs, history=model.history)
+                          ok = False
+                      if ok:
+                          errs = feasibility_errors(inst, d)
+                          if errs or model.n != model.N:
+                              res.breach("solver-terminates-complete-feasible", (errs or ["incomplete"])[0], jobs=jobs,
+                                         rule=rule, filter=fc)
         # tie-breaker compositions of the built-in scoring functions
         scorers = {"spt": shortest_processing_time_score, "fcfs": first_come_first_served_score,
                    "mor": most_operations_remaining_score, "mwr": MostWorkRemainingScorer()}
@@ -288,6 +301,37 @@ def run_C04(tier, seed):
             except Exception as e:  # noqa: BLE001
                 res.breach("tie-breaker-returns-an-operation", f"{combo}: {type(e).__name__}: {str(e)[:100]}",
                            jobs=jobs, history=model.history, scorers=combo)
+        # score_based_rule(f) for the built-in scoring functions: an available operation with a highest score
+        for name in ("spt", "fcfs", "mor"):
+            res.count("score-based-rule-selects-a-highest-score")
+            inst = build_instance(jobs)
+            d = Dispatcher(inst)
+            model = Model(jobs)
+            rule_fn = score_based_rule(scorers[name])
+            try:
+                while not d.schedule.is_complete():
+                    avail = list(d.available_operations())
+                    scores = list(scorers[name](d))
+                    sel = rule_fn(d)
+                    if not any(sel is a for a in avail):
+                        res.breach("score-based-rule-selected-is-available", name, jobs=jobs, history=model.history)
+                        break
+                    if scores[sel.job_id] != max(scores[a.job_id] for a in avail):
+                        res.breach("score-based-rule-selects-a-highest-score", f"{name}: selected job {sel.job_id} with "
+                                   f"score {scores[sel.job_id]}, scores {scores}", jobs=jobs, history=model.history,
+                                   scorer=name)
+                        break
+                    if name == "spt" and sel.duration != min(a.duration for a in avail):
+                        res.breach("score-based-rule-selects-a-highest-score", f"spt: selected duration {sel.duration}, "
+                                   f"shortest available {min(a.duration for a in avail)}", jobs=jobs,
+                                   history=model.history, scorer=name)
+                        break
+                    nxt = sel if rng.random() < 0.6 else rng.choice(avail)
+                    d.dispatch(nxt, nxt.machines[0])
+                    model.apply(nxt.job_id, nxt.machines[0])
+            except Exception as e:  # noqa: BLE001
+                res.breach("score-based-rule-returns-an-operation", f"{name}: {type(e).__name__}: {str(e)[:100]}",
+                           jobs=jobs, history=model.history, scorer=name)
         # direct vs observer-based most-work-remaining
         for fc in ([None, ["dominated_operations", "non_idle_machines"], "non_immediate_operations",
                     "non_immediate_machines"] if positive else [None]):
